@@ -123,6 +123,7 @@ UNIT = {
         job('normalize_evplus', 'normalize_evplus_long', [], loops=2),
         job('normalize_evstar', 'normalize_evstar_float', [], loops=2, props=['C01', 'C02']),
         job('unlinkAllDown', 'forest__unlinkAllDown', STUBS, loops=1, props=['C06']),
+        job('deleteNode', 'forest__deleteNode', STUBS, props=['C06', 'C02']),
         job('createReducedNode', 'forest__createReducedNode', STUBS + NORM + ['forest__unlinkAllDown'], loops=3, object_bits=12),
     ],
 }
